@@ -589,10 +589,10 @@ class CustomSD(BaseCorrelations):
                 # this is to stop overflow
                 if np.exp(-w / self.temperature) > np.finfo(float).eps:
                     inte = self._spectral_density(w) / w ** 2 \
-                        * (((np.exp(-1j*tau * w) \
-                             + np.exp(-(w / self.temperature - 1j*tau * w))) \
-                            - np.exp(- w / self.temperature) - 1) \
-                        / (1 - np.exp(-w / self.temperature)) + 1j*tau * w)
+                        * ((np.expm1(-1j*tau * w) \
+                            + np.exp(- w / self.temperature) \
+                              * np.expm1(1j*tau * w)) \
+                        / (-np.expm1(-w / self.temperature)) + 1j*tau * w)
                 else:
                     inte = self._spectral_density(w) / w ** 2 \
                         * (np.exp(-1j * w * tau)
